@@ -232,6 +232,12 @@ def identity_comparisons(rep, idx, rule="C19.11", classes=None):
                             return True
                         if isinstance(e, ast.Name) and (e.id[:1].isupper() or e.id.isupper()):
                             return True
+                        # a local sentinel: name = object(), bound once
+                        if isinstance(e, ast.Name):
+                            defs = [s for s in ast.walk(f.node) if isinstance(s, ast.Assign) and any(isinstance(t, ast.Name) and t.id == e.id for t in s.targets)]
+                            if len(defs) == 1 and isinstance(defs[0].value, ast.Call) and isinstance(defs[0].value.func, ast.Name) and \
+                                    defs[0].value.func.id == "object" and not defs[0].value.args:
+                                return True
                         return False
                     if not (singleton(left) or singleton(right)):
                         arith = any(isinstance(e, (ast.BinOp, ast.Subscript, ast.Call)) or
@@ -447,6 +453,67 @@ def _flag_proves_nonempty(call, source_text, f, par):
     return None
 
 
+def _none_result_proves_nonempty(call, source_text, f, par, idx):
+    """The call sits where `V is None` is known, V = self.<helper>(...) assigned once before it, and the helper returns None only
+    from inside a loop over the same collection (its last statement returns something that is not None): the loop body
+    ran, so the collection has an element.  `V is None` is known after `if V is not None: ...; return/raise/continue/break`,
+    in the body of `if V is None:` and in the else-branch of `if V is not None:`."""
+    if f.cls is None or idx is None:
+        return None
+    cands = {}
+    for n in ast.walk(f.node):
+        if isinstance(n, ast.Assign) and len(n.targets) == 1 and isinstance(n.targets[0], ast.Name) and isinstance(n.value, ast.Call) and \
+                isinstance(n.value.func, ast.Attribute) and isinstance(n.value.func.value, ast.Name) and n.value.func.value.id == "self":
+            cands.setdefault(n.targets[0].id, []).append(n)
+
+    def is_none_test(t, v, positive):
+        """t is `v is None` (positive) / `v is not None` (not positive)"""
+        return isinstance(t, ast.Compare) and len(t.ops) == 1 and isinstance(t.left, ast.Name) and t.left.id == v and \
+            isinstance(t.comparators[0], ast.Constant) and t.comparators[0].value is None and \
+            isinstance(t.ops[0], ast.Is if positive else ast.IsNot)
+    chain = _ancestors(call, par)
+    for v, defs in cands.items():
+        stores = [n for n in ast.walk(f.node) if isinstance(n, ast.Name) and n.id == v and isinstance(n.ctx, (ast.Store, ast.Del))]
+        if len(defs) != 1 or len(stores) != 1:
+            continue
+        h = idx.lookup_method(f.cls, defs[0].value.func.attr)
+        if h is None or h.node is f.node:
+            continue
+        body = [s for s in h.node.body if not (isinstance(s, ast.Expr) and isinstance(s.value, ast.Constant))]
+        last = body[-1] if body else None
+        if not (isinstance(last, ast.Return) and last.value is not None and not (isinstance(last.value, ast.Constant) and last.value.value is None)):
+            continue
+        hpar = _parents(h.node)
+        nones = [r for r in ast.walk(h.node) if isinstance(r, ast.Return) and (r.value is None or (isinstance(r.value, ast.Constant) and r.value.value is None))]
+        others = [r for r in ast.walk(h.node) if isinstance(r, ast.Return) and r not in nones and r is not last]
+        if not nones or any(isinstance(r.value, (ast.Name, ast.Attribute, ast.Call, ast.IfExp)) for r in others):
+            continue                                    # another return might hand back None as well
+        if not all(any(isinstance(a, ast.For) and _iter_is(a.iter, source_text, h) for a, _ in _ancestors(r, hpar)) for r in nones):
+            continue
+        known = False
+        for anc, child in chain:
+            if isinstance(anc, ast.If):
+                if is_none_test(anc.test, v, True) and any(child is s for s in anc.body):
+                    known = True
+                if is_none_test(anc.test, v, False) and any(child is s for s in anc.orelse):
+                    known = True
+        node = call
+        while node is not None and not known:
+            blk, k = _block_and_index(node, par) if isinstance(node, ast.stmt) else (None, None)
+            if blk is not None:
+                for s in blk[:k]:
+                    if isinstance(s, ast.If) and is_none_test(s.test, v, False) and not s.orelse and s.body and \
+                            isinstance(s.body[-1], (ast.Break, ast.Return, ast.Continue, ast.Raise)):
+                        # the assignment must precede the test
+                        if defs[0].lineno <= s.lineno:
+                            known = True
+            node = par.get(node)
+        if known:
+            return (f"reached only where `{v}` is None; {h.qual}() returns None only from inside its loop over {source_text}, so that "
+                    "collection has an element")
+    return None
+
+
 def _local_list_emptiness(name, f, par):
     """-> ('nonempty'|'maybe-empty'|'unknown', why) for a local list filled with append()."""
     inits = [n for n in ast.walk(f.node) if isinstance(n, ast.Assign) and len(n.targets) == 1 and
@@ -561,6 +628,8 @@ def partial_reducers(rep, idx):
                             line=n.lineno)
                 else:
                     rep.unk("C19.8", f.site, what, f"the argument is not a collection the analysis can size; on an empty sequence the unpacking fails with {fails}")
+        if f.site in getattr(idx, "fully_opened", ()):
+            continue                                    # a new helper opened at every call site: judged in its callers' context
         for n in ast.walk(f.node):
             if not (isinstance(n, ast.Call) and isinstance(n.func, (ast.Name, ast.Attribute))):
                 continue
@@ -598,7 +667,7 @@ def partial_reducers(rep, idx):
                 elif isinstance(src, ast.Attribute) and isinstance(src.value, ast.Name) and src.value.id == "self":
                     verdict, why = _attr_emptiness(src.attr, f, par, n)
                 if verdict != "nonempty":
-                    proof = _flag_proves_nonempty(n, ast.unparse(src), f, par)
+                    proof = _flag_proves_nonempty(n, ast.unparse(src), f, par) or _none_result_proves_nonempty(n, ast.unparse(src), f, par, idx)
                     if proof:
                         verdict, why = "nonempty", proof
             if verdict == "nonempty":
@@ -1084,7 +1153,14 @@ def raise_types(rep, idx):
                 # number of such raises in the file identify the entry
                 if key not in EXC_TABLE and exc not in ("ValueError", "TypeError"):
                     same_file = [k for k in EXC_TABLE if k[0].split("::")[0] == f.site.split("::")[0] and k[1] == exc and k not in used]
-                    gone = [k for k in same_file if not any(g.site == k[0] for g in idx.all_functions())]
+                    def still_there(k):
+                        # the tabled function exists and still raises that exception itself
+                        for g in idx.all_functions():
+                            if g.site == k[0]:
+                                return any(isinstance(r, ast.Raise) and r.exc is not None and not getattr(r, "_inlined_from", None) and
+                                           ast.unparse(r.exc.func if isinstance(r.exc, ast.Call) else r.exc) == k[1] for r in ast.walk(g.node))
+                        return False
+                    gone = [k for k in same_file if not still_there(k)]
                     if gone:
                         key = gone[0]
                 if exc in ("ValueError", "TypeError"):
